@@ -33,7 +33,7 @@ INTERNAL = ["eta_1", "eta_2", "mv_0", "mf_1", "mv_1", "gamma-_1", "eta_3"]
 
 
 def budget(tier):
-    return {"examples": 420 if tier == "quick" else 3500,
+    return {"examples": 600 if tier == "quick" else 5000,
             "soft_seconds": 300 if tier == "quick" else 3000}
 
 
